@@ -32,6 +32,38 @@ def awq_orders():
     return f(o), f(r)
 
 
+def awq_create_conds():
+    """conjuncts of the condition under which `QBitsTensor.create` builds an AWQBitsTensor, and of the
+    condition under which `_to_copy` converts back to the standard representation first (source text)"""
+    import ast
+    out = {"create": ["<not found>"], "to_copy": ["<not found>"], "optimize": ["<not found>"]}
+    tree = ast.parse(open(os.path.join(REPO, "optimum/quanto/tensor/qbits/qbits.py")).read())
+    cls = next((n for n in ast.walk(tree) if isinstance(n, ast.ClassDef) and n.name == "QBitsTensor"), None)
+
+    def conj(test):
+        return [ast.unparse(v) for v in test.values] if isinstance(test, ast.BoolOp) and isinstance(test.op, ast.And) else [ast.unparse(test)]
+    if cls is not None:
+        fn = next((n for n in cls.body if isinstance(n, ast.FunctionDef) and n.name == "create"), None)
+        if fn is not None:
+            ifs = [n for n in fn.body if isinstance(n, ast.If)]
+            rets = [ast.unparse(n.value).split("(")[0] for n in fn.body if isinstance(n, ast.Return)]
+            if len(ifs) == 1 and not ifs[0].orelse:
+                inner = [ast.unparse(n.value).split("(")[0] for n in ast.walk(ifs[0]) if isinstance(n, ast.Return)]
+                out["create"] = conj(ifs[0].test) + ["=> " + ",".join(inner), "else " + ",".join(rets)]
+        fn = next((n for n in cls.body if isinstance(n, ast.FunctionDef) and n.name == "optimize"), None)
+        if fn is not None:
+            ifs = [n for n in fn.body if isinstance(n, ast.If)]
+            if len(ifs) == 1:
+                out["optimize"] = conj(ifs[0].test) + ["=> " + ";".join(ast.unparse(n) for n in ifs[0].body)]
+    tree = ast.parse(open(os.path.join(REPO, "optimum/quanto/tensor/qbits/qbits_ops.py")).read())
+    fn = next((n for n in ast.walk(tree) if isinstance(n, ast.FunctionDef) and n.name == "_to_copy"), None)
+    if fn is not None:
+        ifs = [n for n in fn.body if isinstance(n, ast.If)]
+        out["to_copy"] = [" | ".join(conj(i.test)) + " => " + ";".join(ast.unparse(n) for n in i.body) for i in ifs]
+        out["to_copy"].append("return " + ",".join(ast.unparse(n.value).split("(")[0] for n in fn.body if isinstance(n, ast.Return)))
+    return out
+
+
 WRITE_SET_FUNCS = [
     ("optimum/quanto/nn/qmodule.py", "QModuleMixin.forward"), ("optimum/quanto/nn/qmodule.py", "QModuleMixin.qweight"),
     ("optimum/quanto/nn/qmodule.py", "QModuleMixin.freeze"),
@@ -110,6 +142,13 @@ def render():
     lines.append("/-- `AWQ_ORDER` and `AWQ_REVERSE_ORDER` of qbits/awq/packed.py -/")
     lines.append("def awqOrder : List Nat := [" + ", ".join(map(str, o)) + "]")
     lines.append("def awqReverseOrder : List Nat := [" + ", ".join(map(str, r)) + "]")
+    lines.append("")
+    strl0 = lambda l: "[" + ", ".join("\"" + x.replace("\\", "").replace("\"", "'") + "\"" for x in l) + "]"
+    ac = awq_create_conds()
+    lines.append("/-- source text of the decisions of `QBitsTensor.create`, `QBitsTensor.optimize` and the QBitsTensor `_to_copy` -/")
+    lines.append("def awqCreateConds : List String := " + strl0(ac["create"]))
+    lines.append("def awqOptimizeConds : List String := " + strl0(ac["optimize"]))
+    lines.append("def awqToCopyConds : List String := " + strl0(ac["to_copy"]))
     lines.append("")
     try:
         qb, qbi, fn, mods = dispatch_tables()
